@@ -305,18 +305,19 @@ def gen_c11(rnd, n, thorough=False):
         k = len(layout)
         m, xff = rnd.pick(METHODS), rnd.pick([0, 0x3f000000])
         nfiles = rnd.pick([1, 2, 3])
-        items = rnd.pick([['i1'], ['i1', 'i2']])
+        items = rnd.pick([['i1'], ['i1', 'i2'], ['a.b'], ['a.b', 'a.c']])      # dotted item = nested directory a/b
+        itempat = 'a/*' if items[0].startswith('a.') else '*'
         lines = item_tree(rnd, layout, m, xff, items, nfiles, rnd.pick([0.4, 0.9]))
         destkind = rnd.pick(['absent', 'empty', 'partial', 'stale', 'mismatch', 'missing_src', 'cascade'])
         if destkind == 'cascade':
             lname = rnd.pick(['three_1s', 'three_2s', 'four'])
             layout = CLI_LAYOUTS[lname]
             k = len(layout)
-            items, nfiles = ['i1'], 1
+            items, nfiles, itempat = ['i1'], 1, '*'
             lines, cdst = cascade_pair(rnd, 's/i1/f0.wsp', 'd/i1/sum.wsp', layout, m, xff)
             lines += cdst
         for it in items:
-            dn = 'd/%s/sum.wsp' % it
+            dn = 'd/%s/sum.wsp' % it.replace('.', '/')
             if destkind == 'empty':
                 lines += ["create %s %s m %d x %08x" % (dn, fmt_layout(layout), m, xff), "sync %s" % dn, "drop %s" % dn]
             elif destkind in ('partial', 'stale'):
@@ -328,24 +329,24 @@ def gen_c11(rnd, n, thorough=False):
         if destkind == 'cascade':
             wk, frm, until, arch = 'default', '0', '0', -1
         srcpat = 'q*.wsp' if destkind == 'missing_src' else '*.wsp'
-        common = "base=s item=* src=%s destbase=d dest=sum.wsp from=%s until=%s archive=%d spell=%d" % (srcpat, frm, until, arch, rnd.pick([0, 0, 1, 2, 3, 4]))
+        common = "base=s item=" + itempat + " src=%s destbase=d dest=sum.wsp from=%s until=%s archive=%d spell=%d" % (srcpat, frm, until, arch, rnd.pick([0, 0, 1, 2, 3, 4]))
         lines.append("clisumdiff " + common)
         lines.append("clisumcopy " + common + " m=%d x=%08x layout=%s" % (m, xff, lay_csv(layout)))
         for it in items:
-            observe_all(lines, 'd/%s/sum.wsp' % it, layout)
+            observe_all(lines, 'd/%s/sum.wsp' % it.replace('.', '/'), layout)
         lines.append("clisumdiff " + common)
         if k >= 3 or rnd.chance(0.5):
             # a later change of one finest slot of one source, then copy and compare again
             it = items[0]
             S0, N0 = layout[0]
-            fn = 's/%s/f0.wsp' % it
+            fn = 's/%s/f0.wsp' % it.replace('.', '/')
             lines += ["open %s" % fn, "many %s 0 @ 1 @-%d %016x" % (fn, rnd.randrange(N0) * S0, fbits(float(rnd.randint(100, 200)))), "sync %s" % fn, "drop %s" % fn]
             lines.append("clisumdiff " + common)
             lines.append("clisumcopy " + common + " m=%d x=%08x layout=%s" % (m, xff, lay_csv(layout)))
             for it2 in items:
-                observe_all(lines, 'd/%s/sum.wsp' % it2, layout)
+                observe_all(lines, 'd/%s/sum.wsp' % it2.replace('.', '/'), layout)
             lines.append("clisumdiff " + common)
-        lines.append("clisum base=s item=* src=%s from=%s until=%s archive=%d header=1" % (srcpat, frm, until, arch))
+        lines.append("clisum base=s item=%s src=%s from=%s until=%s archive=%d header=1" % (itempat, srcpat, frm, until, arch))
         cases.append({'id': 'c11-%d' % c, 'lines': lines, 'tags': {'layout': lname, 'dest': destkind, 'files': nfiles, 'window': wk}})
     return cases
 
@@ -435,6 +436,17 @@ def gen_c12(rnd, n, thorough=False):
         for nm in names:
             lines += fill_ops(rnd, 's/i1/' + nm, layout, m, xff, density=rnd.pick([0.3, 0.9]))
         lines += fill_ops(rnd, 's/i2/a.wsp', layout, m, xff, density=0.5)
+        siblings = rnd.chance(0.3)
+        if siblings:
+            # directories one of which is a prefix of the other, with a wildcard above them: the
+            # component-wise order of a directory walk differs from the bytewise order of the joined names
+            for d in ('web/cpu', 'web-db/cpu', 'web+x/cpu'):
+                lines += fill_ops(rnd, 's/%s/a.wsp' % d, layout, m, xff, density=0.6)
+            wk, frm, until = window(rnd, layout)
+            for remote in (0, 1):
+                lines.append("clisum base=s item=*/cpu src=*.wsp from=%s until=%s archive=-1 header=1 remote=%d" % (frm, until, remote))
+            lines.append("clidiff src=s:*/cpu/*.wsp dest=s: from=%s until=%s archive=-1 remote=0" % (frm, until))
+            lines.append("clidiff src=s:*/cpu/*.wsp dest=ROOT: from=%s until=%s archive=-1 remote=1" % (frm, until))
         for _ in range(rnd.randint(3, 6)):
             # besides files and missing files: a directory and a path through a regular file (they
             # exist but cannot be opened: an error, not "does not exist", on both access paths)
